@@ -350,10 +350,19 @@ func (b *c14base) apply(c dmgCase) ([]byte, map[int64]bool, bool) {
 			changed = true
 		}
 	}
+	// a record is damaged if one of ITS bytes differs from the pristine file (or is cut off): an overwrite whose
+	// fill happens to repeat the original bytes of a neighbouring record leaves that record intact
 	dm := map[int64]bool{}
+	orig := b.files[c.Seg]
 	for _, r := range b.segs[c.Seg].Log.Recs {
-		if int64(lo) < r.Pos+r.Len && int64(hi) > r.Pos {
-			dm[r.Offset] = true
+		if int64(lo) >= r.Pos+r.Len || int64(hi) <= r.Pos {
+			continue
+		}
+		for i := r.Pos; i < r.Pos+r.Len; i++ {
+			if i >= int64(len(f)) || f[i] != orig[i] {
+				dm[r.Offset] = true
+				break
+			}
 		}
 	}
 	return f, dm, changed
@@ -447,16 +456,25 @@ func (b *c14base) runCase(c dmgCase, work string, tw *TraceWriter) {
 }
 
 // c14Worker is the entry point of the child process.
+const c14Round = 1000000
+
 func c14Worker(args []string) int {
 	shard, _ := strconv.Atoi(args[0])
 	nshards, _ := strconv.Atoi(args[1])
 	tier := args[2]
 	seed, _ := strconv.ParseInt(args[3], 10, 64)
 	out, root := args[4], args[5]
-	only := -1
+	only, round := -1, 0
 	if len(args) > 6 {
 		only, _ = strconv.Atoi(args[6])
 	}
+	if len(args) > 7 {
+		round, _ = strconv.Atoi(args[7])
+	}
+	if only >= 0 { // a case id carries its round: every round has a base log of its own (seed + 1000 * round)
+		round = only / c14Round
+	}
+	seed += int64(1000 * round)
 	runtime.GOMAXPROCS(1)
 	debug.SetPanicOnFault(true)
 	b, err := buildC14Base(filepath.Join(root, fmt.Sprintf("w%d", shard)), seed)
@@ -472,10 +490,12 @@ func c14Worker(args []string) int {
 	prog, _ := os.Create(out + ".progress")
 	cs := b.cases(tier, seed)
 	for _, c := range cs {
+		cid := c.ID
+		c.ID += round * c14Round
 		if only >= 0 && c.ID != only {
 			continue
 		}
-		if only < 0 && c.ID%nshards != shard {
+		if only < 0 && cid%nshards != shard {
 			continue
 		}
 		fmt.Fprintf(prog, "%d %s\n", c.ID, c.What)
@@ -497,13 +517,20 @@ func runC14(r *SeqRun) {
 		return
 	}
 	nshards := 14
+	// thorough: several base logs (other value lengths, so other record boundaries and positions), each damaged exhaustively
+	for round := 0; round < tierN(r.Tier, 1, 6); round++ {
+		r.runC14Round(self, nshards, round)
+	}
+}
+
+func (r *SeqRun) runC14Round(self string, nshards, round int) {
 	var wg sync.WaitGroup
 	for s := 0; s < nshards; s++ {
 		wg.Add(1)
 		go func(s int) {
 			defer wg.Done()
-			out := filepath.Join(r.Scratch, fmt.Sprintf("trace-c14-%02d.ndjson", s))
-			cmd := exec.Command(self, "c14-worker", strconv.Itoa(s), strconv.Itoa(nshards), r.Tier, strconv.FormatInt(r.Seed, 10), out, r.Scratch)
+			out := filepath.Join(r.Scratch, fmt.Sprintf("trace-c14-%d-%02d.ndjson", round, s))
+			cmd := exec.Command(self, "c14-worker", strconv.Itoa(s), strconv.Itoa(nshards), r.Tier, strconv.FormatInt(r.Seed, 10), out, r.Scratch, "-1", strconv.Itoa(round))
 			ob, err := cmd.CombinedOutput()
 			if err != nil {
 				if ee, ok := err.(*exec.ExitError); ok && ee.ExitCode() == 2 && strings.Contains(string(ob), "c14 base") {
